@@ -141,6 +141,11 @@ func c10Job(raw json.RawMessage) (any, error) {
 		return NewRouter(RouterCfg{IC: it.IC}, o...)
 	}
 	var routers []rt
+	setupURL := func(r *Router, strict bool, ps map[string]string) {
+		if pv, bad := Guard(func() { r.URL(strict, it.Pattern, ps) }); bad {
+			rep("C10.no-panic", "panic:"+shortPanic(pv), fmt.Sprintf("URL(strict=%v) while building the histories, params=%s", strict, paramsLabel(ps)), fmt.Sprintf("panic(%v)", pv), "a string or an error")
+		}
+	}
 	if perr == nil {
 		live := mk("")
 		if _, bad := Guard(func() { live.Handle(it.Pattern, hv.Route("h"), nil, "GET") }); !bad {
@@ -167,18 +172,18 @@ func c10Job(raw json.RawMessage) (any, error) {
 			any := map[string]string{"x": "1", "y": "1", "z": "1", "xy": "1"}
 			urlThenRemoved := mk("")
 			urlThenRemoved.Handle(it.Pattern, hv.Route("h"), nil, "GET")
-			urlThenRemoved.URL(true, it.Pattern, any)
-			urlThenRemoved.URL(true, it.Pattern, nil)
+			setupURL(urlThenRemoved, true, any)
+			setupURL(urlThenRemoved, true, nil)
 			urlThenRemoved.Remove(it.Pattern)
 			routers = append(routers, rt{"strict-URL-then-removed", urlThenRemoved, false})
 			urlThenCleaned := mk("")
 			urlThenCleaned.Handle(it.Pattern, hv.Route("h"), nil, "GET")
-			urlThenCleaned.URL(true, it.Pattern, any)
+			setupURL(urlThenCleaned, true, any)
 			urlThenCleaned.Clean()
 			routers = append(routers, rt{"strict-URL-then-cleaned", urlThenCleaned, false})
 			urlThenAdded := mk("")
-			urlThenAdded.URL(true, it.Pattern, any)
-			urlThenAdded.URL(false, it.Pattern, any)
+			setupURL(urlThenAdded, true, any)
+			setupURL(urlThenAdded, false, any)
 			urlThenAdded.Handle(it.Pattern, hv.Route("h"), nil, "GET")
 			routers = append(routers, rt{"strict-URL-then-registered", urlThenAdded, true})
 			dom := mk("https://h/")
